@@ -97,6 +97,8 @@ pub enum Op {
     DropAdapter { a: u16 },
     /// fault injection (sched engine): push cheap submits until only `leave` slots are free
     Fill { leave: u8 },
+    /// a backlog of `n` cheap commands on this thread's queue (no overload: the ring keeps room)
+    Bulk { n: u16 },
     /// scope-limit episode: n local spans/events/props in the current scope
     Burst { n: u16, kind: u8 },
     /// nest `n` local-parent scopes / collectors (popped by the normaliser)
@@ -149,6 +151,7 @@ pub enum K {
     Drive,
     DropAdapter,
     Fill,
+    Bulk,
     Burst,
     Nest,
     Exit,
@@ -403,6 +406,7 @@ pub fn op_strategy(p: &Profile) -> BoxedStrategy<Op> {
         add(K::DropAdapter, any::<u16>().prop_map(|a| Op::DropAdapter { a }).boxed());
     }
     add(K::Fill, (0u8..4).prop_map(|leave| Op::Fill { leave }).boxed());
+    add(K::Bulk, prop_oneof![2 => 100u16..9500, 2 => 4000u16..4200, 1 => 8100u16..8300].prop_map(|n| Op::Bulk { n }).boxed());
     add(
         K::Burst,
         (0u16..60, 0u8..3).prop_map(|(n, kind)| Op::Burst { n, kind }).boxed(),
